@@ -6,7 +6,7 @@ import re
 from ..program import AnalysisError, walk_local, dotted
 from ..analysis import Spec, src, class_const, const_value
 from ..regexlang import Lang
-from ..rules import (substitute_locals, template_sites, GWF, EXC, need_func, stores_to, is_const)
+from ..rules import (cond_equiv, substitute_locals, template_sites, GWF, EXC, need_func, stores_to, is_const)
 from . import common
 
 BR = GWF + '.branches'
@@ -420,34 +420,59 @@ def round_trip(prog, an, rep):
               qb.where(), 'QueueBranch builds destinations from %s' % fmts)
 
 
+def parent_mapping(prog, an, f):
+    """How handle_commit turns a candidate branch into the source branch
+    name used to look the pull request up.  Either the nested
+    get_parent_branch(branch) (if / return) or the same thing written as a
+    conditional expression in a comprehension.  Returns (variable, test
+    expr, value when true, value when false, name of the list mapped) or
+    None."""
+    g = f.nested.get('get_parent_branch')
+    if g is not None and g.params:
+        from ..inline import _as_expression, _body_wo_doc
+        import copy
+        e = _as_expression(copy.deepcopy(_body_wo_doc(g.node)))
+        if isinstance(e, ast.IfExp):
+            over = None
+            for x in prog.calls_in(f):
+                if src(x.func) == 'map' and len(x.args) == 2 and \
+                        src(x.args[0]) == g.name:
+                    over = src(x.args[1])
+            for x in walk_local(f.node, include_root=False):
+                if isinstance(x, (ast.ListComp, ast.GeneratorExp)) and \
+                        isinstance(x.elt, ast.Call) and \
+                        src(x.elt.func) == g.name:
+                    over = src(x.generators[0].iter)
+            return g.params[0], e.test, e.body, e.orelse, over
+        return None
+    for x in walk_local(f.node, include_root=False):
+        if isinstance(x, (ast.ListComp, ast.GeneratorExp)) and \
+                len(x.generators) == 1 and not x.generators[0].ifs and \
+                isinstance(x.elt, ast.IfExp) and \
+                isinstance(x.generators[0].target, ast.Name) and \
+                'feature_branch' in src(x.elt):
+            return (x.generators[0].target.id, x.elt.test, x.elt.body,
+                    x.elt.orelse, src(x.generators[0].iter))
+    return None
+
+
 def parent_lookup(prog, an, rep):
     R = 'C18.ARG.parent-lookup'
     f = need_func(an, GWF + '.handle_commit')
-    g = f.nested.get('get_parent_branch')
-    if g is None:
+    pm_ = parent_mapping(prog, an, f)
+    rep.evaluated()
+    if pm_ is None:
         rep.violation(R, f.qname + ': get_parent_branch', f.where(),
                       'handle_commit no longer maps integration branches to '
                       'their source branch')
         return
-    c = an.cfg(g)
-    tb = an.branch_nodes(
-        g, lambda e: isinstance(e, ast.Call) and
-        src(e.func) == 'isinstance' and
-        src(e.args[1]) == 'IntegrationBranch', True)
-    rets = [n for n in c.nodes.values() if n.kind == 'return']
-    ok_f = ok_n = False
-    for r in rets:
-        v = src(r.ast.value)
-        under, _ = c.must_pass(tb, r.id)
-        if v.endswith('.feature_branch'):
-            ok_f = under
-        elif v.endswith('.name'):
-            ok_n = not under
-    rep.evaluated()
-    rep.check(ok_f and ok_n, R, g.qname + ': integration branch -> its '
+    var, test, yes, no, _ = pm_
+    ok = cond_equiv(None, test, 'isinstance(%s, IntegrationBranch)' % var) \
+        and src(yes) == var + '.feature_branch' and src(no) == var + '.name'
+    rep.check(ok, R, f.qname + ': integration branch -> its '
               'feature_branch field, anything else -> its own name',
-              g.where(), 'parent lookup returns %s' %
-              [src(r.ast.value) for r in rets])
+              f.where(test), 'parent lookup is %s if %s else %s' % (
+                  src(yes), src(test), src(no)))
 
 
 def notes(prog, an, rep):
